@@ -252,6 +252,51 @@ fn language_job(ctx: &Ctx, job: usize, iters: u64) -> Stats {
     st
 }
 
+/// RULE SYSTEMS: a monotone body that does NOT distribute over union. The facts are the
+/// assignments of 2-3 variables; fact k is derived when a conjunction of one to three EARLIER facts
+/// is in X (`exists vars # (X & fact)`, or a universal premise), so something may need two facts
+/// that were first found in different rounds — iterating on the newest facts alone stops early.
+/// The dual (gfp) removes facts the same way.
+fn rule_system_job(ctx: &Ctx, job: usize, iters: u64) -> Stats {
+    let mut st = Stats::new();
+    let mut rng = Rng::stream(ctx.seed, "C06.rules", job as u64);
+    for _ in 0..iters {
+        let n = 2 + rng.usize(2);
+        let vars: Vec<&str> = ["a", "b", "c"][..n].to_vec();
+        let all = vars.join(", ");
+        let fact = |k: usize| -> String { format!("({})", (0..n).map(|i| if (k >> i) & 1 == 1 { vars[i].to_string() } else { format!("-{}", vars[i]) }).collect::<Vec<_>>().join(" & ")) };
+        let total = 1usize << n;
+        let mut order: Vec<usize> = (0..total).collect();
+        rng.shuffle(&mut order);
+        let derived = 2 + rng.usize(total - 2);
+        let gfp = rng.chance(1, 3);
+        let mut rules: Vec<String> = Vec::new();
+        for (pos, k) in order.iter().enumerate().take(derived) {
+            if pos == 0 {
+                rules.push(if gfp { format!("-{}", fact(*k)) } else { fact(*k) });
+                continue;
+            }
+            let premises: Vec<usize> = (0..1 + rng.usize(3)).map(|_| order[rng.usize(pos)]).collect();
+            if gfp {
+                // fact k is removed once one of its premises has been removed
+                let ps: Vec<String> = premises.iter().map(|p| format!("(forall {} # (-{} | X))", all, fact(*p))).collect();
+                rules.push(format!("(-{} | ({}))", fact(*k), ps.join(" & ")));
+            } else {
+                let ps: Vec<String> = premises
+                    .iter()
+                    .map(|p| if rng.chance(1, 5) { format!("(forall {} # ({} => X))", all, fact(*p)) } else { format!("(exists {} # (X & {}))", all, fact(*p)) })
+                    .collect();
+                rules.push(format!("({} & {})", fact(*k), ps.join(" & ")));
+            }
+        }
+        let text = if gfp { format!("{} X # {}", rng.pick_str(&["gfp", "nu"]), rules.join(" & ")) } else { format!("{} X # {}", rng.pick_str(&["lfp", "mu"]), rules.join(" | ")) };
+        if check_fix_text(&mut st, &text, "rule-system") {
+            st.bump("rule_system_bodies");
+        }
+    }
+    st
+}
+
 fn exhaustive_job(job: usize, jobs: usize) -> Stats {
     // every tree with <= 2 operator nodes over {a, b} as the body of lfp/gfp a (only monotone ones are judged)
     let mut st = Stats::new();
@@ -447,6 +492,7 @@ pub fn run(ctx: &Ctx) -> (Stats, Spec) {
     let (iters, api) = ctx.tier.pick((10_000u64, 5_000u64), (250_000u64, 100_000u64));
     let parts = util::par_jobs(16, |job| {
         let mut s = language_job(ctx, job, iters);
+        s.merge(rule_system_job(ctx, job, iters / 20));
         s.merge(api_job(ctx, job, api));
         s
     });
@@ -477,7 +523,7 @@ pub fn run(ctx: &Ctx) -> (Stats, Spec) {
         }
     }
     let spec = Spec {
-        rule: "bodies from a polarity-tracking generator (X under and/or/ite branches/quantifiers/at-least counting/left list of >=/even negation; nested and mixed lfp/gfp up to depth 3; inner binders and quantifiers reusing the outer name; aliases mu/nu), every small tree as body, README identities, the least and the greatest fixed point of ONE body (same bound name) side by side in one formula, LONG chains (the fixed point of a walk through all 2^n assignments of 3-4 [quick] / 2-5 [thorough] variables, one per round, and its dual; and chains of 253 [quick] / 253, 509, 1021 [thorough] rounds over 8-10 variables whose fixed point is known by construction). For each: ALL functions over the other names (<= 3 names: 256 candidates; 4 names: 4096 sampled) are enumerated as competing (pre/post-)fixed points; the generated body's monotonicity is verified on all comparable pairs. API: fp(a, t) with random table-defined maps on the 16 functions of two variables whose orbit ends in a self-loop; the closure counts its applications and calls back into the environment; a quarter of the calls run in an environment whose symbol type has a constant Hash (every pair of same-shape diagrams collides), so that `mapped to itself` cannot be confused with `same hash`. distinct = text resp. (map, start); non-trivial = X occurs free, T depends on X and T has >= 2 fixed points.".into(),
+        rule: "bodies from a polarity-tracking generator (X under and/or/ite branches/quantifiers/at-least counting/left list of >=/even negation; nested and mixed lfp/gfp up to depth 3; inner binders and quantifiers reusing the outer name; aliases mu/nu), RULE SYSTEMS (facts = the assignments of 2-3 variables, each derived from a conjunction of one to three earlier facts read off X through exists / forall — monotone bodies that do not distribute over union; duals for gfp), every small tree as body, README identities, the least and the greatest fixed point of ONE body (same bound name) side by side in one formula, LONG chains (the fixed point of a walk through all 2^n assignments of 3-4 [quick] / 2-5 [thorough] variables, one per round, and its dual; and chains of 253 [quick] / 253, 509, 1021 [thorough] rounds over 8-10 variables whose fixed point is known by construction). For each: ALL functions over the other names (<= 3 names: 256 candidates; 4 names: 4096 sampled) are enumerated as competing (pre/post-)fixed points; the generated body's monotonicity is verified on all comparable pairs. API: fp(a, t) with random table-defined maps on the 16 functions of two variables whose orbit ends in a self-loop; the closure counts its applications and calls back into the environment; a quarter of the calls run in an environment whose symbol type has a constant Hash (every pair of same-shape diagrams collides), so that `mapped to itself` cannot be confused with `same hash`. distinct = text resp. (map, start); non-trivial = X occurs free, T depends on X and T has >= 2 fixed points.".into(),
         assumptions: vec![
             "non-monotone or non-convergent bodies are never handed to the engine (it may legitimately loop; the README says so)".into(),
             "'evaluation terminates' is decided as: total fixed-point iterations <= 4 x the reference's count + 64 (a monotone chain cannot be longer than the lattice height)".into(),
@@ -490,6 +536,7 @@ pub fn run(ctx: &Ctx) -> (Stats, Spec) {
             ("inner_binder_reuses_outer_name".into(), 20, "shadowing by an inner fixed point never exercised".into()),
             ("fp_api_calls".into(), 1_000, "fp API never exercised".into()),
             ("long_chain_fixed_points".into(), 4, "long iteration chains never exercised".into()),
+            ("rule_system_bodies".into(), 1_000, "rule-system bodies (monotone, not distributive) never exercised".into()),
             ("very_long_chain_fixed_points".into(), 2, "iteration chains of hundreds of rounds never exercised".into()),
             ("least_and_greatest_of_one_body".into(), 100, "lfp and gfp of one body side by side never exercised".into()),
             ("fp_api_calls_weak_hash_symbols".into(), 300, "fp over colliding hashes never exercised".into()),
